@@ -1,6 +1,7 @@
 import Rangers.Proofs.GroupChainCrash
 import Rangers.Proofs.GroupChainMirror
 import Rangers.Proofs.GroupChainSql
+import Rangers.Proofs.GroupChainFork
 /-!
 Property C19 — the group chain is a gap-free linked list whose height index matches it.
 
@@ -454,5 +455,79 @@ example : (rmToS c2 0 { kind := .del, id := [0xee] }).1 = rmTo c2 0 := by decide
 
 /-- With the fault on the top group the switch is cut after that removal (panic), one group short. -/
 example : (rmToS c2 0 { kind := .del, id := gA.id }).2 = true ∧ (rmToS c2 0 { kind := .del, id := gA.id }).1.count = 1 := by decide
+
+/-! ## K. Which groups are working at a block height (`availableGroupsAt`, `GetAvailableGroupsByMinerId`) -/
+
+/-- The selection rule, exactly: newest first, groups with `DismissHeight > h`; at the first group
+    that is not, the genesis group `l[0]` is appended and the walk stops. -/
+theorem available_groups_rule {l : List Group} {c : Chain} (r : Rep l c) (h : Nat) :
+    availableAt c h = availOf l.head? h l.reverse := availableAt_rep r h
+
+/-- Every group it returns is on the chain (a listed group that is still working, or the genesis
+    group), never nil — so `GetAvailableGroupsByMinerId` does not dereference nil. -/
+theorem available_groups_listed {l : List Group} {c : Chain} (r : Rep l c) (h : Nat) :
+    ∀ og ∈ availableAt c h, ∃ g, og = some g ∧ g ∈ l := by
+  intro og hog
+  rw [availableAt_rep r h] at hog
+  have hne := r.ne
+  rcases availOf_mem l.head? h l.reverse og hog with e | ⟨g, e1, e2, _⟩
+  · cases l with
+    | nil => exact absurd rfl hne
+    | cons a t => exact ⟨a, by simpa using e, by simp⟩
+  · exact ⟨g, e1, by simpa using e2⟩
+
+/-- While every listed group is still working the answer is the whole chain, newest first. -/
+theorem available_all_when_working {l : List Group} {c : Chain} (r : Rep l c) (h : Nat)
+    (hall : ∀ g ∈ l, g.dismiss > h) : availableAt c h = l.reverse.map some := by
+  rw [availableAt_rep r h]
+  exact availOf_all _ h l.reverse (fun g hg => hall g (by simpa using hg))
+
+/-- "Returns every listed group that is still working at `h`." -/
+def FullStatementAvailableComplete : Prop :=
+  ∀ (l : List Group) (c : Chain) (h : Nat) (g : Group), Rep l c → g ∈ l → g.dismiss > h →
+    some g ∈ availableAt c h
+
+def gOld : Group := { id := [0xa1], pre := [0x90, 0x01], parent := [0x90, 0x01], height := 7777, create := 1, dismiss := 1000 }
+def gNew : Group := { id := [0xb1, 0xb2], pre := [0xa1], parent := [0x90, 0x01], height := 7777, create := 2, dismiss := 50 }
+def c3 : Chain := save (save c1 gOld) gNew
+
+theorem rep_c3 : Rep [g0, stamped 1 gOld, stamped 2 gNew] c3 := by
+  have r2 := (rep_add rep_c1 gOld (by simp [lenBound]) (by simp [IdOK, gOld, cntKey]) (by decide)).2
+  have r3 := (rep_add r2 gNew (by simp [lenBound]) (by simp [IdOK, gNew, cntKey]) (by decide)).2
+  unfold c3
+  simpa using r3
+
+/-- False (documented quirk, replayed in corpus/C19/08): the walk stops at the FIRST group that has
+    been dismissed, so an older group that is still working is not returned when a newer one was
+    dismissed earlier. Cannot happen when dismiss heights grow along the chain (`AddGroup` sets them
+    to `CreateHeight + duration`, and consensus creates groups at increasing heights). -/
+theorem available_complete_counterexample : ¬ FullStatementAvailableComplete := by
+  intro h
+  have := h _ c3 100 (stamped 1 gOld) rep_c3 (by simp) (by decide)
+  revert this
+  decide
+
+/-! ## L. The fork switch (`groupChainFork.triggerOnChain`): remove down to the ancestor, add the fork's groups -/
+
+/-- The whole switch refines "cut the list after the ancestor, then append the accepted fork groups":
+    the chain represents `specAddAll …` of the cut list, the part up to the ancestor is untouched,
+    and `triggerOnChain` reports success only if every fork group was appended — "remove followed by
+    adding different groups at the same heights", for any number of heights. -/
+theorem inv_fork_switch {l : List Group} {c : Chain} (r : Rep l c) (dur h : Nat) (gs : List Group)
+    (hid : ∀ g ∈ gs, IdOK g.id) (hb : l.length + gs.length < lenBound) :
+    Rep (specAddAll dur gs (l.take (h + 1)) (rmTo c h)) (forkSwitch dur c h gs).1 ∧
+      l.take (h + 1) <+: specAddAll dur gs (l.take (h + 1)) (rmTo c h) ∧
+      ((forkSwitch dur c h gs).2 = true →
+        (specAddAll dur gs (l.take (h + 1)) (rmTo c h)).length = (l.take (h + 1)).length + gs.length) := by
+  have r1 := rep_rmTo r h
+  refine ⟨?_, specAddAll_prefix dur gs _ _, fun hf => addAll_true_len dur gs _ _ hf⟩
+  exact rep_addAll dur gs _ _ r1 hid (by
+    have : (l.take (h + 1)).length ≤ l.length := by simp [List.length_take]; omega
+    omega)
+
+/-- After a successful switch the new groups sit at the heights right above the ancestor. -/
+example : (forkSwitch 10 c3 0 [{ gOld with id := [0xd4], pre := [0x90, 0x01] }]).2 = true ∧
+    ((getGroupByHeight (forkSwitch 10 c3 0 [{ gOld with id := [0xd4], pre := [0x90, 0x01] }]).1.disk 1).map (·.id)) = some [0xd4] ∧
+    getGroupByHeight (forkSwitch 10 c3 0 [{ gOld with id := [0xd4], pre := [0x90, 0x01] }]).1.disk 2 = none := by decide
 
 end Rangers.Props.C19
